@@ -256,6 +256,17 @@ theorem stale_without_initial_clearing :
     (run dependsOn [.zeroGrad .predictor, .backward .LP, .snapshot .dW_LP, .zeroGrad .predictor, .backward .LA,
       .snapshot .dW_LA, .combine, .step .predictor, .step .adversary] init).appliedA = some ⟨0, 1, 1⟩ := by decide
 
+/-- demographic parity vs equalized odds, as lifted: `pass_y_` is set exactly for "equalized_odds" (any other keyword is
+    rejected); the adversary is fed the predictor's (undetached) output, followed by the encoded target `y` exactly when
+    `pass_y_`; and the adversary model is built with the matching input width. -/
+theorem lifted_adversary_sees_y_iff_equalized_odds :
+    passY "demographic_parity" = some false ∧ passY "equalized_odds" = some true ∧
+    adversaryInput false = [.yhat] ∧ adversaryInput true = [.yhat, .y] ∧
+    (∀ ny p, adversaryInputWidth ny p = ny * (adversaryInput p).length) := by
+  refine ⟨by decide, by decide, by decide, by decide, ?_⟩
+  intro ny p
+  cases p <;> simp [adversaryInputWidth, adversaryInput]
+
 end TrainStepStructure
 
 /-! ### why single-row tests cannot see F4 -/
